@@ -287,7 +287,13 @@ func TestCheck(t *testing.T) {
 	vfw.Main(t, "C07", func(c *vfw.Ctx) {
 		c.Level("model_checking")
 		c.Rule("E3: every schedule with <= B departures (quick 1, thorough 2) of (a) {peer: Select.req|Select.rsp + data in one segment / two writes / data split} on a passive/active connection: the data is delivered once, never rejected, state ends Selected; (b) {sender: one data send (sync no-W / async), peer: Deselect.req | Select.req | Separate.req}: exactly one of {frame on the wire, nil} / {no frame, not-selected error, drop counter +1}, control request still answered")
+		c.Rule("closing (E2 on the instrumented tree): Selected, the peer stops reading, the application calls Close() (State() leaves Selected at once, the farewell write hangs on the closed window), then the peer sends a data primary W / primary / secondary: not delivered to the handlers, Close returns within 2 s; both roles")
 		if c.Replay != nil {
+			var cc closingCase
+			if err := json.Unmarshal(c.Replay, &cc); err == nil && cc.Closing {
+				oneClosing(c, t, cc)
+				return
+			}
 			var r e3.Replay
 			if err := json.Unmarshal(c.Replay, &r); err != nil || r.Scenario == "" {
 				return
@@ -303,6 +309,7 @@ func TestCheck(t *testing.T) {
 			}
 			return
 		}
+		partClosing(c, t)
 		bound := 1
 		if c.Thorough() {
 			bound = 2
